@@ -28,6 +28,7 @@ int c_find_largest_key_u(const ldb_comparator_t *icmp, const ldb_vector_t *files
 __CPROVER_requires(icmp == &g_vset.icmp && files == g_cfiles && __CPROVER_r_ok(files, sizeof(*files)) && files->length == g_cn && g_cn <= NMAX && __CPROVER_w_ok(largest_key, sizeof(*largest_key)))
 __CPROVER_requires(FIRSTMAX_FACTS)
 __CPROVER_assigns(*largest_key, FO_WINDOW, CMP_GHOST)
+__CPROVER_ensures(FO_TOKENS)
 __CPROVER_ensures(__CPROVER_return_value == (g_cn > 0 ? 1 : 0))
 /* the result is (a copy of) the largest key of a file none of whose peers has a larger one */
 __CPROVER_ensures(g_cn == 0 || (largest_key->data == g_fc.largest.data && largest_key->size == g_fc.largest.size && largest_key->alloc == g_fc.largest.alloc))
@@ -56,8 +57,9 @@ void h_find_largest_key_u(void) {
 /* ---------------------------------------------------------------- ver.boundary.smallest.u */
 /* file f starts with the probe key's user key at a larger internal key (an older version of that user key) */
 #define ISB(f) (SU(f) == g_kuk && LT_(g_kuk, g_ktag, SU(f), ST(f)))
+#define FK_TOKENS (g_fk.smallest.data == TOK_KS && g_fk.largest.data == TOK_KL)
 /* g_k is the position of the first boundary file whose smallest key is minimal; g_k == g_n: no boundary file */
-#define BOUNDARY_FACTS (g_k <= g_n && g_j <= g_n && (g_j != g_k || g_j == g_n) && SHAPE(g_fk) && SHAPE(g_fj) && SHAPE(g_fo) && \
+#define BOUNDARY_FACTS (FK_TOKENS && g_k <= g_n && g_j <= g_n && (g_j != g_k || g_j == g_n) && SHAPE(g_fk) && SHAPE(g_fj) && SHAPE(g_fo) && \
   (g_k >= g_n || (ISB(g_fk) && WF(g_fk))) && \
   (g_j >= g_n || !ISB(g_fj) || (g_k < g_n && (g_j < g_k ? S_LT(g_fk, g_fj) : S_LE(g_fk, g_fj)))) && \
   1)
@@ -69,7 +71,8 @@ __CPROVER_requires(__CPROVER_r_ok(largest_key, sizeof(*largest_key)) && largest_
 /* the caller fixed the witness (enforcing unit), or leaves the choice to the contract: then EVERY (g_k, g_fk) satisfying the facts is considered */
 __CPROVER_requires(!g_world_fixed || (BOUNDARY_FACTS && BOUNDARY_WINDOW))
 __CPROVER_assigns(FO_WINDOW, CMP_GHOST)
-__CPROVER_assigns(!g_world_fixed: g_k, g_fk.smallest.size, g_fk.smallest.alloc, g_fk.largest.size, g_fk.largest.alloc, g_fk.number, g_fk.file_size)
+__CPROVER_ensures(FO_TOKENS)
+__CPROVER_assigns(!g_world_fixed: g_k, g_fk)
 __CPROVER_ensures(BOUNDARY_FACTS)
 __CPROVER_ensures(__CPROVER_return_value == (g_k < g_n ? &g_fk : (ldb_filemeta_t *)NULL))
 ;
@@ -88,7 +91,6 @@ void h_find_smallest_boundary_u(void) {
 }
 
 /* ---------------------------------------------------------------- ver.boundary.add.u */
-size_t g_cn0;
 static void push_hook(const void *x) {
   const ldb_filemeta_t *f = x;
   __CPROVER_assert(x == (const void *)&g_fk, "add_boundary_inputs: every element added is a file of the level (the boundary file just found)");
